@@ -100,7 +100,8 @@ def _cases(draw):
     if kind == 'invalid' and src != 'DEC':
         base = draw(st.text(alphabet=rb.DIGITS[src], min_size=1, max_size=9))
         cls = draw(st.sampled_from(
-            ['baddigit', 'dot', 'sign', 'blank', 'eleven', 'letter']))
+            ['baddigit', 'dot', 'sign', 'blank', 'eleven', 'letter',
+             'white']))
         pos = draw(st.integers(0, len(base)))
         if cls == 'baddigit':
             bad = {'BIN': '2', 'OCT': '8', 'HEX': 'G'}[src]
@@ -111,6 +112,12 @@ def _cases(draw):
             s = draw(st.sampled_from(['-', '+'])) + base
         elif cls == 'blank':
             s = base[:pos] + ' ' + base[pos:]
+        elif cls == 'white':
+            # white space other than the blank, at either end or inside
+            w = draw(st.sampled_from(['\n', '\t', '\r', u'\xa0', '\n\n',
+                                      u'\u2003', '\x0b']))
+            s = draw(st.sampled_from([base + w, w + base,
+                                      base[:pos] + w + base[pos:]]))
         elif cls == 'eleven':
             s = draw(st.text(alphabet=rb.DIGITS[src], min_size=11,
                              max_size=12))
